@@ -47,4 +47,32 @@ theorem composeDomain_of_small {o : Obj} {hd : Bytes} (hdr : o.hdr = some hd) (t
     (segFit : ∀ g ∈ o.segs, C03.SegFit o.cls g) : ComposeDomain o hd :=
   ⟨hdr, tr, input, C04.layoutNW_of_small o hd hsm, small, segFit⟩
 
+/-- **save_load_save_flat_small'** (C06, flat segments, closed-form no-wrap) : `save_load_save_flat'` with
+    `NoWrap64` of the saved object discharged from plain bounds on the input (`C04.noWrap64_of_small_flat`):
+    `SmallObject`, `SmallAddrs2` (addresses, offsets, segment vaddr < 2^62; index-0 / SHT_NULL sections at
+    offset 0; < 2^16 members) and `p_memsz < 2^62`.  No hypothesis runs the layout for a wrap-around check any
+    more: `ResaveDomainC` contains `layoutNW`, which `SmallObject` implies as well
+    (`composeDomain_of_small`). -/
+theorem save_load_save_flat_small' {o : Obj} {os : OStream} {r : SaveRes} {hd : Bytes}
+    (hs : save o os = .ok r) (hok : r.ok = true) (hg : os.Good) (hos : os.content.length < 9223372036854775808)
+    (D : ResaveDomainC o hd) (hsm : SmallObject o) (ha : SmallAddrs2 o)
+    (hmem : ∀ g ∈ o.segs, g.memsz.toNat < 4611686018427387904)
+    (hsep : AddrSeparate r.obj.secs r.obj.segs)
+    (o2 : Obj) (k : StreamKind) (isLazy : Bool) (htr2 : o2.trans = []) :
+    ∃ (r2 : LoadRes) (r3 : SaveRes), load o2 { data := r.os.content, kind := k } isLazy = .ok r2 ∧ r2.ok = true ∧
+      save r2.obj os = .ok r3 ∧ r3.ok = true ∧ r3.os = r.os :=
+  save_load_save_flat' hs hok hg hos D (C04.noWrap64_of_small_flat hs hok D.toFlatDomain hsm ha hmem) hsep
+    o2 k isLazy htr2
+
+/-- non-vacuity: `exTwoM` (ELF64/LSB, two PT_LOADs, explicit address, NOBITS member, loose section) -/
+example (k : StreamKind) (isLazy : Bool) :
+    ∃ (r2 : LoadRes) (r3 : SaveRes),
+      load {} { data := (savedOf (objOf exTwoM)).os.content, kind := k } isLazy = .ok r2 ∧ r2.ok = true ∧
+      save r2.obj {} = .ok r3 ∧ r3.ok = true ∧ r3.os = (savedOf (objOf exTwoM)).os :=
+  save_load_save_flat_small' exTwo_ok.saved exTwo_ok.ok ⟨rfl, rfl⟩ (by decide)
+    ⟨exTwo_ok.dom, exTwo_resave.cov, memberDomain_of_B exTwo_resave.members, exTwo_resave.res,
+      Or.inl exTwo_resave.front, C06.resaveOkC_of_B (by decide +kernel)⟩
+    (by decide +kernel) (by unfold SmallAddrs2; decide +kernel) (by decide +kernel)
+    (addrSeparate_of_B exTwo_resave.sep) {} k isLazy rfl
+
 end ElfioVerif.Compose
